@@ -89,7 +89,18 @@ func canonical(budget int) []caseSpec {
 		mk(map[string]int{"start:1": B, "stop:2": 1}, "start1", "start2", "stop2", "tick", "pump", "pump", "pump"),
 		mk(map[string]int{"start:1": 1, "stop:1": 1}, "start1", "stop1", "settle"),
 		mk(map[string]int{"stop:1": B + 1}, "start1", "stop1"), // beyond the retry budget: liveness waived, safety still judged
+		// graceful stop without drain: whatever is pending or active is left to the next incarnation
+		nodrain(mk(map[string]int{"interim:1": 1}, "start1", "interim1", "graceful")),
+		nodrain(mk(map[string]int{"interim:1": B}, "start1", "start2", "interim1", "graceful", "stop2")),
+		nodrain(mk(nil, "start1", "interim1", "graceful")),
+		nodrain(mk(map[string]int{"start:1": 1}, "start1", "graceful")),
 	}
+}
+
+func nodrain(c caseSpec) caseSpec {
+	c.NoDrain = true
+	c.Origin = "canonical-nodrain"
+	return c
 }
 
 // histories enumerates all event sequences of length 2..depth over nsess sessions (sessions are
